@@ -2,6 +2,7 @@ import FpgoVerif.Proofs.C20Comb
 import FpgoVerif.Proofs.C20Curry
 import FpgoVerif.Proofs.C20Match
 import FpgoVerif.Gen.Skeletons
+import FpgoVerif.Gen.EffectsC20
 /-! Property theorems for C20 — "Combinators compose in the documented order; pattern matching is
     first-match".  Every theorem is about the definitions of `Model/C20*.lean` that the driver runs. -/
 namespace FpgoVerif.C20
@@ -83,6 +84,53 @@ theorem C20_compose_pipe_spec (fs : List (Fn α)) (s : List α) :
   cases fs with
   | nil => exact ⟨rfl, pipe_nil s⟩
   | cons f rest => exact ⟨compose_eq_foldr _ _ (by simp), pipe_eq_foldl _ _ (by simp)⟩
+
+/-! ## The caller's function list is only read -/
+
+/-- A combinator call (plain or regrouped over sub-slices) leaves the caller's function list as it was, and so
+    does any script of such calls — so building several pipelines from one slice gives each its own meaning. -/
+theorem C20_argument_list_unchanged (cmp pip : List (Fn Int) → Fn Int) (fs : List (Fn Int)) :
+    (applyComb cmp fs).2 = fs ∧ (∀ k, (applyRegroup cmp k fs).2 = fs) ∧
+    (∀ script input, (ruRun cmp pip script input fs).fs = fs) := by
+  have hreg : ∀ (c : List (Fn Int) → Fn Int) k (l : List (Fn Int)), (applyRegroup c k l).2 = l := by
+    intro c k l
+    unfold applyRegroup
+    split
+    · simp [applyComb]
+    · rfl
+  refine ⟨rfl, fun k => hreg cmp k fs, ?_⟩
+  intro script input
+  unfold ruRun
+  have hstep : ∀ (st : RuState) tok, (ruStep cmp pip input st tok).fs = st.fs := by
+    intro st tok
+    unfold ruStep
+    simp only
+    repeat' split
+    all_goals simp [applyComb, hreg]
+  have : ∀ (sc : List String) (st : RuState), (sc.foldl (ruStep cmp pip input) st).fs = st.fs := by
+    intro sc
+    induction sc with
+    | nil => intro st; rfl
+    | cons t rest ih => intro st; rw [List.foldl_cons, ih, hstep]
+  exact this script _
+
+/-- tie to the code: the extractor finds, on this run, no statement in `Compose`, `ComposeInterface`, `Pipe`,
+    `PipeInterface` (closures included) that stores into, appends to, sorts/copies into, or hands to another
+    function the parameter slice or an alias of it -/
+theorem C20_argument_list_not_written :
+    FpgoVerif.Gen.effectsC20 = [("Compose", []), ("ComposeInterface", []), ("Pipe", []), ("PipeInterface", [])] := by
+  decide
+
+/-- the `ru` cases: the implementation model prints what the Spec prints -/
+theorem C20_reuse_spec (script : String) (input : List Int) (fs : List (Fn Int)) :
+    runRU true script input fs = runRU false script input fs := by
+  have hc : (compose : List (Fn Int) → Fn Int) = Spec.compose := by
+    funext l s; exact (C20_compose_pipe_spec l s).1
+  have hp : (pipe : List (Fn Int) → Fn Int) = Spec.pipe := by
+    funext l s; exact (C20_compose_pipe_spec l s).2
+  unfold runRU
+  simp only [if_true, Bool.false_eq_true, if_false]
+  rw [(C20_argument_list_unchanged compose pipe fs).2.2, hc, hp]
 
 /-! ## Adapters: exactly the bound, then the supplied arguments, in order -/
 
